@@ -119,6 +119,7 @@ REJECTIONS = {
     "generalized-contraction": (dict(contraction="gen-ss"), ("fchk", "molden", "molekel", "wfn", "wfx"), (False,)),
     "generalized-contraction-pd": (dict(contraction="gen-pd", shellset="+d-pure"), ("fchk", "molden", "molekel"), (False,)),
     "occs_aminusb": (dict(mo="aminusb"), ("molden", "molekel", "wfn", "wfx"), (False,)),
+    "occs_aminusb-neg": (dict(mo="aminusb-neg"), ("molden", "molekel", "wfn", "wfx"), (False,)),
     "pure-functions": (dict(shellset="+d-pure"), ("wfn", "wfx"), (False, True)),
     "non-aufbau": (dict(mo="fractional"), ("fchk",), (False, True)),
     "non-aufbau-beta-hole": (dict(mo="beta-hole"), ("fchk",), (False, True)),
